@@ -255,12 +255,13 @@ def check(prog: Program, tier: str) -> Result:
     _r19_7(prog, res)
     _r19_8(prog, res)
     _r19_9(prog, res)
+    _r19_10(prog, res)
     # a renamed binding is rewritten as ONE transaction (R19.3); that only keeps definition and uses together if the
     # scheduler applies a transaction wholly or not at all - decided by the C10 check, adopted here
     from . import c10 as _c10
     res.adopt(_c10.check(prog, tier), {"R10.1", "R10.3", "R10.6"}, "R19.3",
               "a rename is consistent only if its transaction is applied as a whole or not at all")
-    res.floors.update({"R19.1": 8, "R19.2": 4, "R19.3": 2, "R19.4": 1, "R19.5": 1, "R19.6": 1, "R19.7": 2, "R19.8": 6, "R19.9": 1})
+    res.floors.update({"R19.1": 8, "R19.2": 4, "R19.3": 2, "R19.4": 1, "R19.5": 1, "R19.6": 1, "R19.7": 2, "R19.8": 6, "R19.9": 1, "R19.10": 1})
     res.analysed.update({"named_node_constructions_reaching_output": n_ctor, "guarded_name_generators": sorted(f"{a}.{b}" for a, b in gens)})
     return res
 
@@ -707,6 +708,17 @@ def _r19_4(prog: Program, res: Result) -> None:
                 whole.append(n)
         if isinstance(n, ast.Attribute) and n.attr in ALL and isinstance(n.value, ast.Attribute) and n.value.attr == "args":
             partial[n.attr] = n
+    # through a helper that collects the names a scope binds: it must walk the scope for ast.arg (every parameter kind is an ast.arg)
+    via_helper = None
+    for c in prog.calls_in(fn):
+        r = prog.resolve_call(c.func, fn.mod, fn)
+        if r and r[0] == "fn" and c.args and isinstance(c.args[0], ast.Name):
+            body = norm(r[1].node)
+            if "ast.arg" in body and ".arg" in body and "walk(" in body:
+                # the argument is the nested function (a loop variable over function definitions)
+                lp = binding_loop_of(fn, c, c.args[0].id)
+                if lp is not None and "FunctionDef" in norm(lp.iter):
+                    via_helper = (c, r[1])
     if whole:
         res.ok("R19.4", fn.loc(whole[0]), fn.fq, "parameter shadowing test", f"looks at the whole arguments node ({short(parent(whole[0]), 60)}): every parameter kind is seen")
     elif partial:
@@ -715,8 +727,20 @@ def _r19_4(prog: Program, res: Result) -> None:
                    "all five parameter lists are consulted" if not missing else
                    f"only {sorted(partial)} are consulted; a parameter in {missing} with the name being renamed is not seen as a binding of "
                    "its own: its uses inside the function are renamed with the outer variable and captured by it")
+    elif via_helper is not None:
+        res.ok("R19.4", fn.loc(via_helper[0]), fn.fq, "parameter shadowing test",
+               f"asks {via_helper[1].name}() for the names the nested function binds, which walks it for ast.arg: every parameter kind is seen")
     else:
         res.undecided("R19.4", fn.loc(), fn.fq, "parameter shadowing test", "no access to the parameters of nested functions found: written in an unrecognised way")
+
+
+def binding_loop_of(fn: Func, at: ast.AST, var: str):
+    a = parent(at)
+    while a is not None and a is not fn.node:
+        if isinstance(a, (ast.For, ast.AsyncFor)) and any(isinstance(x, ast.Name) and x.id == var for x in ast.walk(a.target)):
+            return a
+        a = parent(a)
+    return None
 
 
 def parent_loop(n):
@@ -761,6 +785,47 @@ def _r19_8(prog: Program, res: Result) -> None:
         res.decide(ok, "R19.8", fn.loc(), fn.fq, f"defined names include {what}",
                    f"ast.{cls}{field if field.startswith('.') else ''} is collected" if ok else
                    f"names bound through {what} (ast.{cls}) are not among the defined names: a variable can be renamed to, or a binder synthesised with, a name that is taken")
+
+
+def _r19_10(prog: Program, res: Result) -> None:
+    """A nested function that binds the name ITSELF - by a parameter, an assignment, a loop, an import, `except .. as`, a match
+    capture - has a variable of its own by that name: none of the Names inside it are uses of the outer variable.  In the
+    collector of uses, every statement that exempts names from renaming because of such a function must exempt ALL names of
+    the function (`walk(<the function>, ast.Name)`) - exempting the names inside the Store node itself exempts nothing - and the
+    decision must cover imports as well as the defined names (whose completeness is R19.8)."""
+    fn = prog.func("fixes", "_get_uses_of")
+    n = 0
+    for c in walk_own(fn.node):
+        if not (isinstance(c, ast.Call) and isinstance(c.func, ast.Attribute) and c.func.attr == "update" and c.args and isinstance(c.args[0], ast.Call)
+                and (prog.dotted(c.args[0].func) or "").split(".")[-1] == "walk" and len(c.args[0].args) >= 2 and norm(c.args[0].args[1]) == "ast.Name"):
+            continue
+        n += 1
+        walked = c.args[0].args[0]
+        lp = binding_loop_of(fn, c, walked.id) if isinstance(walked, ast.Name) else None
+        over_function = lp is not None and "FunctionDef" in norm(lp.iter)
+        # the condition under which the names are exempted
+        conds = []
+        a, child = parent(c), c
+        while a is not None and a is not fn.node:
+            if isinstance(a, ast.If) and child in a.body:
+                conds.append(norm(a.test))
+            child, a = a, parent(a)
+        cond = " and ".join(conds)
+        covers = ("arg" in cond) or ("get_defined_names" in cond)
+        full = "get_defined_names" in cond and ("import" in cond.lower())
+        ok = over_function and covers
+        res.decide(ok and (full or "ast.arg" in cond), "R19.10", fn.loc(c), fn.fq, short(c, 70),
+                   "exempts every name of a function that binds the name itself" if ok else
+                   (f"exempts the names inside `{norm(walked)}`, which is not the nested function: a function with a local of that name keeps its reads, which are renamed with the outer "
+                    "variable and captured" if not over_function else "the exemption does not depend on how the function binds the name"))
+    # the decision as a whole covers imports and all defined-name kinds
+    txt = norm(fn.node)
+    whole = "get_defined_names" in txt and "get_import_bound_names" in txt
+    res.decide(whole, "R19.10", fn.loc(), fn.fq, "kinds of local binding that shadow",
+               "defined names (R19.8) and names bound by imports" if whole else
+               "a function that binds the name by an import, `except .. as` or a match capture (or an assignment, when only parameters are looked at) is not recognised as having its own variable")
+    if n == 0:
+        res.undecided("R19.10", fn.loc(), fn.fq, "exemption of shadowed names", "no exemption statement found")
 
 
 def _r19_9(prog: Program, res: Result) -> None:
@@ -840,6 +905,9 @@ def _r19_7(prog: Program, res: Result) -> None:
 from ..selftest import Variant  # noqa: E402
 
 VARIANTS: List[Variant] = [
+    Variant("shadowing-exempts-the-store-node-only", "FIRE", "fixes",
+            "        if name in tracing.get_defined_names(funcdef) | tracing.get_import_bound_names(funcdef):\n            blacklisted_names.update(core.walk(funcdef, ast.Name))\n",
+            "        if any(core.walk(funcdef.args, ast.arg(arg=name))):\n            blacklisted_names.update(core.walk(funcdef, ast.Name))\n        for child in core.walk(funcdef, ast.Name(ctx=ast.Store, id=name)):\n            blacklisted_names.update(core.walk(child, ast.Name))\n", "R19.10"),
     Variant("declared-names-renamed", "FIRE", "fixes", "        if old_names & declared_names:\n            continue  # \"global hitCount\" would no longer be about the renamed variable\n", "", "R19.9"),
     Variant("except-as-names-not-defined-names", "FIRE", "tracing", "        | {node.name for node in core.walk(root, ast.ExceptHandler(name=str))}\n", "", "R19.8"),
     Variant("blacklist-of-dotted-import-names", "FIRE", "fixes",
@@ -860,10 +928,11 @@ VARIANTS: List[Variant] = [
     Variant("moved-static-method-checked-against-functions-only", "FIRE", "object_oriented",
             "        | {node.id for node in core.walk(root, ast.Name)}\n        | {node.name for node in core.walk(root, ast.ClassDef)}\n        | {(alias.asname or alias.name).split(\".\")[0] for alias in core.walk(root, ast.alias)}\n", "", "R19.1"),
     Variant("shadowing-test-sees-plain-parameters-only", "FIRE", "fixes",
-            "        if any(core.walk(funcdef.args, ast.arg(arg=name))):", "        if any(core.filter_nodes(funcdef.args.args, ast.arg(arg=name))):", "R19.4"),
+            "        if name in tracing.get_defined_names(funcdef) | tracing.get_import_bound_names(funcdef):",
+            "        if name in {a.arg for a in funcdef.args.args} | {c.id for c in core.walk(funcdef, ast.Name(ctx=ast.Store))} | tracing.get_import_bound_names(funcdef):", "R19.4"),
     Variant("shadowing-test-lists-all-parameter-kinds", "SILENT", "fixes",
-            "        if any(core.walk(funcdef.args, ast.arg(arg=name))):",
-            "        if any(a is not None and a.arg == name for a in funcdef.args.posonlyargs + funcdef.args.args + funcdef.args.kwonlyargs + [funcdef.args.vararg, funcdef.args.kwarg]):"),
+            "        if name in tracing.get_defined_names(funcdef) | tracing.get_import_bound_names(funcdef):",
+            "        if name in tracing.get_defined_names(funcdef) | tracing.get_import_bound_names(funcdef) | {a.arg for a in core.walk(funcdef.args, ast.arg)}:"),
     Variant("loop-variable-generator-unchecked", "FIRE", "fixes", "            if new_name and new_name not in used_names:\n                yield new_name", "            if new_name:\n                yield new_name", "R19.1"),
     Variant("keys-to-items-collision-test-removed", "FIRE", "fixes",
             "        if any(core.walk(root, (ast.Name(id=node_target_name), ast.arg(arg=node_target_name)))):\n            continue  # The new loop variable would shadow an existing variable\n        yield (\n            node.generators[0].iter,",
